@@ -535,7 +535,11 @@ func buildLeaves() []*Leaf {
 			Gen: func(r *fw.Rand, uniq int) reflect.Value { x := []string{GenString(r, uniq)}; return rv(&x) }},
 		{Name: "[]Elem", Type: reflect.TypeOf([]Elem{}), Caps: CapRef | CapFile,
 			Gen: func(r *fw.Rand, uniq int) reflect.Value {
-				return rv([]Elem{{X: uniq, Y: GenString(r, uniq)}, {X: -uniq}})
+				l := []Elem{{X: uniq, Y: GenString(r, uniq)}, {X: -uniq}}
+				for k := r.Intn(6); k > 0; k-- { // 2..7 elements: decoders grow their slices geometrically
+					l = append(l, Elem{X: k})
+				}
+				return rv(l)
 			}},
 		{Name: "[]ElemT", Type: reflect.TypeOf([]ElemT{}), Caps: CapRef,
 			Gen: func(r *fw.Rand, uniq int) reflect.Value {
